@@ -404,6 +404,14 @@ func hA(x: interface{}) => i64 {
 	return -12
 }
 
+func hMISx(m: map[int]string) => i64 {
+	h: i64 = 0
+	for k, v := range m {
+		h += mix(i64(k), hStr(v))
+	}
+	return mix(h, i64(len(m)))
+}
+
 func hSA(s: []interface{}) => i64 {
 	h: i64 = 86
 	for _, v := range s {
@@ -460,6 +468,68 @@ func earlyExit(s: []int, t: string, n: int) => int {
 		}
 	}
 	return len(w)
+}
+
+func joinAll(sep: string, xs: ...string) => string {
+	r := ""
+	for i, x := range xs {
+		if i > 0 {
+			r += sep
+		}
+		r += x
+	}
+	return r
+}
+
+func sumAll(xs: ...int) => int {
+	t := 0
+	for _, x := range xs {
+		t += x
+	}
+	return t
+}
+
+func recur(s: string, v: []int, n: int) => string {
+	if n <= 0 {
+		return s
+	}
+	if n%3 == 0 {
+		return recur(s+"r", v[:len(v)/2], n-1) + itoa(len(v))
+	}
+	t := append(v, n)
+	return recur(s, t, n-1)
+}
+
+func mkAdder(base: string) => func(x: string) => string {
+	n := 0
+	return func(x: string) => string {
+		n++
+		return base + x + itoa(n)
+	}
+}
+
+type Holder :struct {
+	arr:  [2]string
+	fn:   func() => int
+	any:  interface{}
+	in:   Pair
+	rows: [][]int
+}
+
+func hH(h: *Holder) => i64 {
+	if h == nil {
+		return -21
+	}
+	r: i64 = 90
+	r = mix(r, hStr(h.arr[0]))
+	r = mix(r, hStr(h.arr[1]))
+	if h.fn != nil {
+		r = mix(r, i64(h.fn()))
+	}
+	r = mix(r, hA(h.any))
+	r = mix(r, hV(h.in))
+	r = mix(r, hSSI(h.rows))
+	return r
 }
 
 func itoa(v: int) => string {
@@ -520,6 +590,7 @@ func Generate(r Rand) *Driver {
 	g.genericOps()
 	g.kindOps()
 	g.formOps()
+	g.formOps2()
 	return g.emit()
 }
 
@@ -774,6 +845,35 @@ func (g *gen) formOps() {
 		g.add("append interface{}", fmt.Sprintf("if len(%s) < 16 {\n%s = append(%s, %s)\n}\nreturn hSA(%s)", s("a"), s("a"), s("a"), S(kAny, "b"), s("a")))
 		g.add("append boxed literal values", fmt.Sprintf("if len(%s) < 16 {\n%s = append(%s, c, %s)\n}\nreturn hSA(%s)", s("a"), s("a"), s("a"), str("b"), s("a")))
 		g.add("elem load []interface{}", fmt.Sprintf("if len(%s) > 0 {\n%s = %s[b%%len(%s)]\n}\nreturn hA(%s)", s("a"), S(kAny, "c"), s("a"), s("a"), S(kAny, "c")))
+	}
+}
+
+// formOps2: a second batch of syntactic forms.
+func (g *gen) formOps2() {
+	S := g.slot
+	si := func(i string) string { return S(kSliceInt, i) }
+	str := func(i string) string { return S(kStr, i) }
+	g.add("variadic call with spread and with list", fmt.Sprintf("%s = joinAll(\"-\", %s, %s, \"lit\")\nn := sumAll(%s...)\nreturn hStr(%s) + i64(n)", str("a"), str("b"), str("c"), si("b"), str("a")))
+	g.add("recursion passing refs", fmt.Sprintf("%s = recur(%s, %s, c%%7)\nif len(%s) > 120 {\n%s = %s[:40]\n}\nreturn hStr(%s)", str("a"), str("b"), si("c"), str("a"), str("a"), str("a"), str("a")))
+	g.add("closure returning closure", fmt.Sprintf("f := mkAdder(%s)\nx := f(\"p\")\ny := f(%s)\nif len(y) > 150 {\ny = \"y\"\n}\n%s = y\nreturn hStr(x) + hStr(y)", str("b"), str("c"), str("a")))
+	g.add("closures created in a loop", fmt.Sprintf("fs: []func() => int\nfor i := 0; i < 3; i++ {\nk := i + c\ns := %s\nfs = append(fs, func() => int {\nk++\nreturn k + len(s)\n})\n}\nt := 0\nfor _, f := range fs {\nt += f()\n}\nreturn i64(t)", str("b")))
+	g.add("delete-from-slice idiom (append of overlapping parts)", fmt.Sprintf("t := %s\nif len(t) > 1 {\ni := b %% len(t)\nt = append(t[:i], t[i+1:]...)\n%s = t\n}\nreturn hSI(t)", si("a"), si("a")))
+	g.add("self append", fmt.Sprintf("t := %s\nif len(t) > 0 && len(t) < 20 {\nt = append(t, t...)\n%s = t\n}\nreturn hSI(t)", si("a"), si("a")))
+	g.add("labeled break and continue with live refs", fmt.Sprintf("acc := \"\"\nouter:\nfor i := 0; i < 3; i++ {\nx := %s + itoa(i)\nfor j := 0; j < 3; j++ {\ny := x + itoa(j)\nif (i+j+c)%%4 == 0 {\ncontinue outer\n}\nif (i*j+b)%%7 == 6 {\nbreak outer\n}\nif len(acc) < 60 {\nacc += y\n}\n}\n}\n%s = acc\nreturn hStr(acc)", str("b"), str("a")))
+	g.add("switch paths holding refs", fmt.Sprintf("x := %s\nswitch c %% 4 {\ncase 0:\nx = x + \"0\"\ncase 1, 3:\nx = x + \"1\"\ncase 2:\ny := x\nx = y + y\ndefault:\nx = \"\"\n}\nif len(x) > 100 {\nx = x[:10]\n}\n%s = x\nreturn hStr(x)", str("b"), str("a")))
+	g.add("defer in a loop", fmt.Sprintf("r := %s\nfunc() {\nfor i := 0; i < 3; i++ {\nk := itoa(i + c)\ndefer func() {\nif len(r) < 80 {\nr = r + k\n}\n}()\n}\n}()\n%s = r\nreturn hStr(r)", str("b"), str("a")))
+	g.add("new(T) and store through pointer", fmt.Sprintf("p := new(Pair)\n*p = Pair{a: b, s: %s, v: %s}\n*p = Pair{a: c, s: p.s + \"n\", v: p.v}\nq := new(string)\n*q = p.s\n%s = *q\nreturn hV(*p)", str("b"), si("c"), str("a")))
+	g.add("map of maps", fmt.Sprintf("mm := make(map[string]map[int]string)\nfor i := 0; i < 3; i++ {\nk := \"m\" + itoa((b+i)%%2)\nif _, ok := mm[k]; !ok {\nmm[k] = make(map[int]string)\n}\nmm[k][i] = %s\n}\nh: i64 = 0\nfor k, m := range mm {\nh += mix(hStr(k), hMISx(m))\n}\ndelete(mm, \"m0\")\nreturn h + i64(len(mm))", str("c")))
+	g.add("runes and bytes", fmt.Sprintf("s := %s\nrs := []rune(s)\nif len(rs) > 1 {\nrs[0], rs[len(rs)-1] = rs[len(rs)-1], rs[0]\n}\nt := string(rs)\nif len(t) > 0 {\nt = t + string(rs[0])\n}\nif len(t) > 100 {\nt = t[:8]\n}\n%s = t\nreturn hStr(t)", str("b"), str("a")))
+	g.add("array of structs ranged by value", fmt.Sprintf("arr: [3]Pair\nfor i := range arr {\narr[i] = Pair{a: i + c, s: %s + itoa(i), v: %s}\n}\nh: i64 = 3\nfor _, p := range arr {\np.s = p.s + \"x\"\nh = mix(h, hV(p))\n}\nq := &arr[b%%3]\nq.s = \"ptr\"\nreturn h + hV(arr[b%%3])", str("b"), si("c")))
+	g.add("Holder with array, closure, any, nested struct fields", fmt.Sprintf("h := &Holder{}\nh.arr[0] = %s\nh.arr[1] = h.arr[0] + \"1\"\nk := c\nh.fn = func() => int {\nk++\nreturn k\n}\nh.any = %s\nh.in = Pair{a: b, s: %s, v: %s}\nh.rows = append(h.rows, %s, %s)\nx := hH(h)\nh.any = h.in.s\nh.rows[0] = nil\n%s = h.arr[1]\nreturn x + hH(h)", str("b"), si("c"), str("c"), si("b"), si("b"), si("c"), str("a")))
+	g.add("swap elements of [][]int", fmt.Sprintf("rows := [][]int{%s, %s, nil}\nrows[0], rows[2] = rows[2], rows[0]\nrows[1], rows[2] = rows[2], rows[1]\n%s = rows[2]\nreturn hSSI(rows)", si("b"), si("c"), si("a")))
+	if g.has(kFuncInt) {
+		g.add("method value bound to pointer", fmt.Sprintf("r := &Rect{w: b, h: c, tag: %s}\n%s = r.Area\nr.w = r.w + 1\nreturn i64(%s())", str("b"), S(kFuncInt, "a"), S(kFuncInt, "a")))
+	}
+	if g.has(kNode) {
+		n := func(i string) string { return S(kNode, i) }
+		g.add("struct copy through pointers", fmt.Sprintf("p, q := %s, %s\nif p != nil && q != nil && p != q {\nnx := p.next\n*p = *q\nif nx != nil && nx.rank < p.rank {\np.next = nx\n} else if p.next != nil && p.next.rank >= p.rank {\np.next = nil\n}\n}\nreturn hN(p)", n("a"), n("b")))
 	}
 }
 
